@@ -116,7 +116,8 @@ def history_cases(ctx, sc, dist, steps=None):
     AS THEY ARE NOW: the group-probability oracle, and for each of the first pre-terminals the lines of create_guesses = the
     product of the groups the FILES define (consecutive lines of equal probability) = the product of the loaded groups.
     steps: the recorded steps of a replay (one history)."""
-    vio = []
+    import time
+    vio, t0 = [], time.time()
     flagsets = [(False, False, "Grammar"), (False, True, "Grammar")]
     kinds = ["reweight-terminal"] * 3 + ["add-value"] * 2 + ["remove-value"] * 2 + ["retrain"] * 2 + ["flags", "same", "drop-base", "edit_rules"]
 
@@ -179,6 +180,7 @@ def history_cases(ctx, sc, dist, steps=None):
             vio += v
             if v:
                 break
+    dist["history_seconds"] = round(time.time() - t0, 1)
     return vio
 
 
